@@ -106,7 +106,7 @@ def per_program(p):
 
 
 def plan(tier, seed):
-    n = 100 if tier == "quick" else 2000
+    n = 200 if tier == "quick" else 2000
     depth = 4 if tier == "quick" else 5
     shards = [{"seed": seed * 1000 + k, "n": n, "depth": depth, "adversarial": k % 4 == 3} for k in range(16)]
     # one parameterised generic met twice in one annotation (nested first / bare first)
